@@ -292,6 +292,51 @@ pub fn run(prop: &'static str, tier: &str) -> i32 {
                 acc.choice_points += 1;
             }
         }
+        // a ladder of far-future and far-past instants (every 37 years from 1971 to 8999), Z and numeric forms
+        {
+            let mut y = 1971i64;
+            while y < 9000 {
+                let t = (rfc3339::days_from_civil(y, 3, 1) as i128 * 86400 + 3723) * S + 250_000_000;
+                for (off, k, z) in [(0i64, 0usize, ZForm::Z), (34200, 3, ZForm::Numeric)] {
+                    if let Some(s) = rfc3339::render(t, off, k, 'T', z) {
+                        evaluate(prop, &TimeCase { proto: *p, now_ns: Some(now.to_string()), payload: payload_for(claim, &s) }, &mut acc);
+                        acc.choice_points += 1;
+                    }
+                }
+                y += 37;
+            }
+        }
+        // one parser object while the clock moves: a verdict that depends on the clock must be recomputed
+        {
+            let key = key_for(*p);
+            let seed = if p.is_local() { domains::seeds(*p)[0].clone() } else { vec![] };
+            let soon = rfc3339::render(now + 10 * S, 0, 9, 'T', ZForm::Z).unwrap();
+            let later = (now + 20 * S).to_string();
+            for (c2, first_ok) in [("exp", true), ("nbf", false)] {
+                let payload = payload_for(c2, &soon);
+                if let Out::Ok(tok) = adapter::core_issue(*p, &key.sk, &seed, &payload, None, None) {
+                    let ops = vec![POp::Parse(0, 0), POp::Clock(later.clone()), POp::Parse(0, 0), POp::Clock(now.to_string()), POp::Parse(0, 0), POp::Clock(later.clone()), POp::Parse(0, 0)];
+                    let want = [first_ok, !first_ok, first_ok, !first_ok];
+                    adapter::set_clock(Some(time::OffsetDateTime::from_unix_timestamp_nanos(now).unwrap()));
+                    let ev = adapter::parse_history(*p, Layer::Prelude, true, &[key.pk.clone()], &[tok], &ops);
+                    adapter::freeze_default_clock();
+                    let outs: Vec<bool> = ev.iter().filter_map(|e| if let PEvent::Parsed(o, _) = e { Some(o.is_ok()) } else { None }).collect();
+                    acc.executions += 1;
+                    acc.impl_calls += 4;
+                    acc.choice_points += 1;
+                    if outs.len() == 4 && outs[..] == want[..] {
+                        acc.controls_ok += 1;
+                        acc.bump("moving-clock:conforms");
+                    } else {
+                        acc.violate(
+                            format!("{}|{}|moving-clock|{}", prop, p.name(), c2),
+                            format!("one default parser, token with {} = now+10s, parsed at now, now+20s, now, now+20s: accepted = {:?}, expected {:?}", c2, outs, want),
+                            json!({"time_case": TimeCase { proto: *p, now_ns: Some(now.to_string()), payload }, "moving_clock": true}),
+                        );
+                    }
+                }
+            }
+        }
         // free-running rows (real clock): the +-2 s / +-60 s margins of the statement
         let real = time::OffsetDateTime::now_utc().unix_timestamp_nanos();
         for r in [-3652 * 86400 * S, -86400 * S, -3600 * S, -2 * S, 60 * S, 3600 * S, 86400 * S, 3652 * 86400 * S] {
